@@ -374,4 +374,535 @@ theorem b64Encode_ascii (p : Bool) (bs : Bytes) : ∀ c ∈ b64Encode p bs, c < 
     · exact h3
     · exact ih x hx
 
+/-! ## the string front end on serialised tokens -/
+
+theorem prefixV3_length : prefixV3.length = 6 := by decide
+theorem prefixV4_length : prefixV4.length = 6 := by decide
+theorem prefixV3_ne_V4 : prefixV3 ≠ prefixV4 := by decide
+
+theorem front_own (pfx : Bytes) (bad : DecErr) (hlen : pfx.length = 6) (pe : Bool) (payload : Bytes) :
+    front pfx bad (pfx ++ b64Encode pe payload) = .ok payload := by
+  unfold front
+  have h1 : ¬ (pfx ++ b64Encode pe payload).length < 6 := by simp [hlen]
+  simp only [h1, if_false, List.take_left' hlen, List.drop_left' hlen, ne_eq, not_true_eq_false,
+    b64Stage_encode]
+
+theorem front_other (pfx pfx' : Bytes) (bad : DecErr) (hlen : pfx'.length = 6) (hne : pfx' ≠ pfx) (rest : Bytes) :
+    front pfx bad (pfx' ++ rest) = .err bad := by
+  unfold front
+  have h1 : ¬ (pfx' ++ rest).length < 6 := by simp [hlen]
+  simp only [h1, if_false, List.take_left' hlen, ne_eq, hne, not_false_eq_true, if_true]
+
+theorem strBytes_serializeV3 (js : Bytes) :
+    strBytes ("cashuA" ++ asciiStr (b64Encode true js)) = prefixV3 ++ b64Encode true js := by
+  rw [strBytes_append, strBytes_asciiStr _ (b64Encode_ascii true js)]; rfl
+
+theorem strBytes_serializeV4 (cb : Bytes) :
+    strBytes ("cashuB" ++ asciiStr (b64Encode false cb)) = prefixV4 ++ b64Encode false cb := by
+  rw [strBytes_append, strBytes_asciiStr _ (b64Encode_ascii false cb)]; rfl
+
+/-- `DecodeToken (t.Serialize())` for a V3 token, given that `json.Unmarshal` inverts `json.Marshal` on `t`. -/
+theorem decodeToken_serializeV3 (cod : Codec) (t : TokenV3) (js : Bytes)
+    (henc : cod.encJson t = some js) (hdec : cod.decJson js = some t) :
+    ∃ s, serializeV3 cod t = some s ∧ decodeToken cod s = .ok (.v3 t) ∧ decodeTokenV3 cod s = .ok t := by
+  refine ⟨"cashuA" ++ asciiStr (b64Encode true js), by simp only [serializeV3, henc], ?_, ?_⟩
+  · unfold decodeToken decodeTokenBytes decodeV4Bytes decodeV3Bytes frontV4 frontV3
+    rw [strBytes_serializeV3, front_other _ _ _ prefixV3_length prefixV3_ne_V4,
+      front_own _ _ prefixV3_length]
+    simp only [hdec]
+  · unfold decodeTokenV3 decodeV3Bytes frontV3
+    rw [strBytes_serializeV3, front_own _ _ prefixV3_length]
+    simp only [hdec]
+
+/-- `DecodeToken (t.Serialize())` for a V4 token, given that `cbor.Unmarshal` inverts `cbor.Marshal` on `t`. -/
+theorem decodeToken_serializeV4 (cod : Codec) (t : TokenV4) (cb : Bytes)
+    (henc : cod.encCbor t = some cb) (hdec : cod.decCbor cb = some t) :
+    ∃ s, serializeV4 cod t = some s ∧ decodeToken cod s = .ok (.v4 t) ∧ decodeTokenV4 cod s = .ok t := by
+  refine ⟨"cashuB" ++ asciiStr (b64Encode false cb), by simp only [serializeV4, henc], ?_, ?_⟩
+  · unfold decodeToken decodeTokenBytes decodeV4Bytes frontV4
+    rw [strBytes_serializeV4, front_own _ _ prefixV4_length]
+    simp only [hdec]
+  · unfold decodeTokenV4 decodeV4Bytes frontV4
+    rw [strBytes_serializeV4, front_own _ _ prefixV4_length]
+    simp only [hdec]
+
+/-! ## V3 accessors -/
+
+theorem foldl_append_eq_flatMap {α β : Type} (f : α → List β) (l : List α) (init : List β) :
+    l.foldl (fun acc a => acc ++ f a) init = init ++ l.flatMap f := by
+  induction l generalizing init with
+  | nil => simp
+  | cons a rest ih => simp [ih, List.append_assoc]
+
+theorem proofsV3_eq (t : TokenV3) : proofsV3 t = t.token.flatMap (·.proofs) := by
+  unfold proofsV3; rw [foldl_append_eq_flatMap]; rfl
+
+theorem proofsV4_eq (t : TokenV4) :
+    proofsV4 t = t.tokenProofs.flatMap (fun g => g.proofs.map (fromV4 (hexEncode g.id))) := by
+  unfold proofsV4; rw [foldl_append_eq_flatMap]; rfl
+
+theorem amountWrap_append (xs ys : List UInt64) :
+    amountWrap (xs ++ ys) = ys.foldl (· + ·) (amountWrap xs) := by
+  unfold amountWrap; rw [List.foldl_append]
+
+theorem amountV3_eq (t : TokenV3) : amountV3 t = amountWrap ((proofsV3 t).map (·.amount)) := by
+  rw [proofsV3_eq]
+  unfold amountV3
+  have : ∀ (l : List TokenV3Proof) (acc : UInt64) (pre : List UInt64), acc = amountWrap pre →
+      l.foldl (fun acc tp => tp.proofs.foldl (fun acc p => acc + p.amount) acc) acc =
+        amountWrap (pre ++ (l.flatMap (·.proofs)).map (·.amount)) := by
+    intro l
+    induction l with
+    | nil => intro acc pre h; simp [h]
+    | cons tp rest ih =>
+      intro acc pre h
+      simp only [List.foldl_cons, List.flatMap_cons, List.map_append]
+      rw [← List.append_assoc]
+      apply ih
+      rw [amountWrap_append, ← h, List.foldl_map]
+  simpa using this t.token 0 [] rfl
+
+/-- The wrapping sum does not depend on the order. -/
+theorem amountWrap_perm {xs ys : List UInt64} (h : xs.Perm ys) : amountWrap xs = amountWrap ys := by
+  unfold amountWrap
+  apply List.Perm.foldl_eq' h
+  intro x _ y _ z
+  rw [UInt64.add_assoc, UInt64.add_comm x y, ← UInt64.add_assoc]
+
+/-! ## NewTokenV4 -/
+
+/-- What the property promises for one input proof after a V4 round trip: hex fields as
+    `EncodeToString (DecodeString ·)` leaves them (`A-F` lowered), DLEQ kept iff requested. -/
+def DLEQ.lower (d : DLEQ) : DLEQ := { e := lowerHex d.e, s := lowerHex d.s, r := lowerHex d.r }
+
+def normV4 (includeDLEQ : Bool) (p : Proof) : Proof :=
+  { amount := p.amount, id := lowerHex p.id, secret := p.secret, c := lowerHex p.c, witness := p.witness,
+    dleq := if includeDLEQ then p.dleq.map DLEQ.lower else none }
+
+/-- The proof passes the checks of the first loop of `NewTokenV4`. -/
+def V4Acceptable (includeDLEQ : Bool) (p : Proof) : Prop :=
+  (∃ c, hexDecode p.c = .ok c) ∧
+  (includeDLEQ = true → ∀ d, p.dleq = some d →
+    (∃ e, hexDecode d.e = .ok e) ∧ (∃ s, hexDecode d.s = .ok s) ∧ (strBytes d.r).length > 0 ∧ (∃ r, hexDecode d.r = .ok r))
+
+theorem toV4_ok (d : Bool) (p : Proof) (q : ProofV4) (h : toV4 d p = .ok q) :
+    V4Acceptable d p ∧ fromV4 (lowerHex p.id) q = normV4 d p := by
+  unfold toV4 at h
+  split at h
+  · cases h
+  · rename_i c hc
+    cases d with
+    | false =>
+      simp only [Bool.false_eq_true, if_false] at h
+      cases h
+      refine ⟨⟨⟨c, hc⟩, by simp⟩, ?_⟩
+      simp [fromV4, normV4, hexEncode_of_hexDecode _ _ hc]
+    | true =>
+      simp only [if_true] at h
+      split at h
+      · rename_i hd
+        cases h
+        refine ⟨⟨⟨c, hc⟩, by simp [hd]⟩, ?_⟩
+        simp [fromV4, normV4, hexEncode_of_hexDecode _ _ hc, hd]
+      · rename_i dl hd
+        split at h
+        · cases h
+        · rename_i e he
+          split at h
+          · cases h
+          · rename_i s hs
+            split at h
+            · rename_i hr
+              split at h
+              · cases h
+              · rename_i r hrr
+                cases h
+                refine ⟨⟨⟨c, hc⟩, ?_⟩, ?_⟩
+                · intro _ d' hd'
+                  rw [hd] at hd'; cases hd'
+                  exact ⟨⟨e, he⟩, ⟨s, hs⟩, hr, ⟨r, hrr⟩⟩
+                · simp [fromV4, normV4, DLEQ.lower, hexEncode_of_hexDecode _ _ hc,
+                    hexEncode_of_hexDecode _ _ he, hexEncode_of_hexDecode _ _ hs, hexEncode_of_hexDecode _ _ hrr, hd]
+            · cases h
+
+theorem toV4_of_acceptable (d : Bool) (p : Proof) (h : V4Acceptable d p) : ∃ q, toV4 d p = .ok q := by
+  obtain ⟨⟨c, hc⟩, hd⟩ := h
+  unfold toV4
+  simp only [hc]
+  cases d with
+  | false => exact ⟨_, rfl⟩
+  | true =>
+    simp only [if_true]
+    cases hdl : p.dleq with
+    | none => exact ⟨_, rfl⟩
+    | some dl =>
+      obtain ⟨⟨e, he⟩, ⟨s, hs⟩, hr, ⟨r, hrr⟩⟩ := hd rfl dl hdl
+      simp only [he, hs, hr, hrr, if_true]
+      exact ⟨_, rfl⟩
+
+
+/-! ### the Go map -/
+
+theorem GoMap.get_push (m : GoMap) (k k' : String) (p : ProofV4) :
+    (m.push k p).get k' = if k' = k then m.get k ++ [p] else m.get k' := by
+  induction m with
+  | nil =>
+    by_cases h : k' = k
+    · subst h; simp [GoMap.push, GoMap.get]
+    · have h' : ¬ k = k' := fun e => h e.symm
+      simp [GoMap.push, GoMap.get, h, h']
+  | cons kv rest ih =>
+    obtain ⟨k0, v0⟩ := kv
+    by_cases h0 : k0 = k
+    · subst h0
+      by_cases h : k' = k0
+      · subst h; simp [GoMap.push, GoMap.get]
+      · have h' : ¬ k0 = k' := fun e => h e.symm
+        simp [GoMap.push, GoMap.get, h, h']
+    · by_cases h : k' = k
+      · subst h
+        simp [GoMap.push, GoMap.get, h0, ih]
+      · by_cases h1 : k0 = k'
+        · subst h1; simp [GoMap.push, GoMap.get, h0]
+        · simp [GoMap.push, GoMap.get, h0, h1, ih, h]
+
+theorem GoMap.mem_keys_push (m : GoMap) (k k' : String) (p : ProofV4) :
+    k' ∈ (m.push k p).keys ↔ k' ∈ m.keys ∨ k' = k := by
+  induction m with
+  | nil => simp [GoMap.push, GoMap.keys]
+  | cons kv rest ih =>
+    obtain ⟨k0, v0⟩ := kv
+    by_cases h0 : k0 = k
+    · subst h0; simp [GoMap.push, GoMap.keys]; intro h; exact Or.inl h
+    · simp only [GoMap.keys] at ih
+      simp [GoMap.push, GoMap.keys, h0, ih, or_assoc]
+
+/-- The total version of `toV4` (only used where `toV4` succeeds). -/
+def toV4D (d : Bool) (p : Proof) : ProofV4 :=
+  match toV4 d p with
+  | .ok q => q
+  | .error _ => default
+
+/-- First loop of `NewTokenV4`: it succeeds iff every proof is acceptable, and then the map holds, under
+    each keyset id, the `ProofV4`s of the proofs with that id, in their input order. -/
+theorem buildMap_ok (d : Bool) (ps : List Proof) : ∀ (m m' : GoMap), buildMap d ps m = .ok m' →
+    (∀ p ∈ ps, ∃ q, toV4 d p = .ok q) ∧
+    (∀ k, m'.get k = m.get k ++ (ps.filter (fun p => p.id = k)).map (toV4D d)) ∧
+    (∀ k, k ∈ m'.keys ↔ k ∈ m.keys ∨ ∃ p ∈ ps, p.id = k) := by
+  induction ps with
+  | nil => intro m m' h; simp [buildMap] at h; subst h; simp
+  | cons p rest ih =>
+    intro m m' h
+    unfold buildMap at h
+    split at h
+    · cases h
+    · rename_i q hq
+      obtain ⟨h1, h2, h3⟩ := ih _ _ h
+      refine ⟨?_, ?_, ?_⟩
+      · intro x hx
+        simp only [List.mem_cons] at hx
+        rcases hx with rfl | hx
+        · exact ⟨q, hq⟩
+        · exact h1 x hx
+      · intro k
+        rw [h2 k, GoMap.get_push]
+        by_cases hk : k = p.id
+        · subst hk
+          simp [toV4D, hq]
+        · have hk' : ¬ p.id = k := fun e => hk e.symm
+          simp [hk, hk']
+      · intro k
+        rw [h3 k, GoMap.mem_keys_push]
+        simp only [List.mem_cons, exists_eq_or_imp]
+        constructor
+        · rintro ((h | h) | h)
+          · exact Or.inl h
+          · exact Or.inr (Or.inl h.symm)
+          · exact Or.inr (Or.inr h)
+        · rintro (h | h | h)
+          · exact Or.inl (Or.inl h)
+          · exact Or.inl (Or.inr h.symm)
+          · exact Or.inr h
+
+theorem buildMap_of_acceptable (d : Bool) (ps : List Proof) (h : ∀ p ∈ ps, V4Acceptable d p) :
+    ∀ m, ∃ m', buildMap d ps m = .ok m' := by
+  induction ps with
+  | nil => intro m; exact ⟨m, rfl⟩
+  | cons p rest ih =>
+    intro m
+    obtain ⟨q, hq⟩ := toV4_of_acceptable d p (h p (by simp))
+    unfold buildMap
+    simp only [hq]
+    exact ih (fun x hx => h x (by simp [hx])) _
+
+/-- Second loop of `NewTokenV4`: it succeeds iff every visited key is hex, and then there is one group per
+    visited key, in the visiting order. -/
+theorem buildGroups_ok (m : GoMap) (ord : List String) : ∀ gs, buildGroups m ord = .ok gs →
+    (∀ k ∈ ord, ∃ b, hexDecode k = .ok b) ∧
+    gs.flatMap (fun g => g.proofs.map (fromV4 (hexEncode g.id))) =
+      ord.flatMap (fun k => (m.get k).map (fromV4 (lowerHex k))) := by
+  induction ord with
+  | nil => intro gs h; simp [buildGroups] at h; subst h; simp
+  | cons k ks ih =>
+    intro gs h
+    unfold buildGroups at h
+    split at h
+    · cases h
+    · rename_i idb hk
+      split at h
+      · cases h
+      · rename_i gs' hgs
+        cases h
+        obtain ⟨h1, h2⟩ := ih gs' hgs
+        refine ⟨?_, ?_⟩
+        · intro x hx
+          simp only [List.mem_cons] at hx
+          rcases hx with rfl | hx
+          · exact ⟨idb, hk⟩
+          · exact h1 x hx
+        · simp only [List.flatMap_cons, h2, hexEncode_of_hexDecode _ _ hk]
+
+theorem buildGroups_of_hex (m : GoMap) (ord : List String) (h : ∀ k ∈ ord, ∃ b, hexDecode k = .ok b) :
+    ∃ gs, buildGroups m ord = .ok gs := by
+  induction ord with
+  | nil => exact ⟨[], rfl⟩
+  | cons k ks ih =>
+    obtain ⟨b, hb⟩ := h k (by simp)
+    obtain ⟨gs, hgs⟩ := ih (fun x hx => h x (by simp [hx]))
+    exact ⟨{ id := b, proofs := m.get k } :: gs, by simp only [buildGroups, hb, hgs]⟩
+
+
+/-- `NewTokenV4` succeeded: every proof passed the checks, every visited key is hex, and `Proofs()` of the
+    result is, keyset by keyset in visiting order, the input proofs of that keyset (input order) with their hex
+    fields in canonical form. -/
+theorem newV4_ok (ord : List String) (ps : List Proof) (mint : String) (unit : Int) (d : Bool) (t : TokenV4)
+    (h : newV4 ord ps mint unit d = .ok t) :
+    unit = 0 ∧ (∀ p ∈ ps, V4Acceptable d p) ∧ (∀ k ∈ ord, ∃ b, hexDecode k = .ok b) ∧
+    t.mintURL = mint ∧ t.unit = "sat" ∧ t.memo = "" ∧
+    proofsV4 t = ord.flatMap (fun k => (ps.filter (fun p => p.id = k)).map (normV4 d)) := by
+  unfold newV4 newV4With at h
+  split at h
+  · cases h
+  · rename_i hu
+    have hu : unit = 0 := by simpa using hu
+    split at h
+    · cases h
+    · rename_i m hm
+      split at h
+      · cases h
+      · rename_i gs hgs
+        cases h
+        obtain ⟨h1, h2, _⟩ := buildMap_ok d ps [] m hm
+        obtain ⟨h4, h5⟩ := buildGroups_ok m ord gs hgs
+        refine ⟨hu, fun p hp => ?_, h4, rfl, by simp [unitString, hu], rfl, ?_⟩
+        · obtain ⟨q, hq⟩ := h1 p hp
+          exact (toV4_ok d p q hq).1
+        · rw [proofsV4_eq]
+          simp only []
+          rw [h5]
+          congr 1
+          funext k
+          rw [h2 k]
+          simp only [GoMap.get, List.nil_append, List.map_map]
+          apply List.map_congr_left
+          intro p hp
+          simp only [List.mem_filter, decide_eq_true_eq] at hp
+          obtain ⟨q, hq⟩ := h1 p hp.1
+          simp only [Function.comp, toV4D, hq]
+          rw [← hp.2]
+          exact (toV4_ok d p q hq).2
+
+/-- Conversely `NewTokenV4` succeeds whenever the unit is `Sat`, every proof is acceptable and every visited key is hex. -/
+theorem newV4_of_acceptable (ord : List String) (ps : List Proof) (mint : String) (d : Bool)
+    (hps : ∀ p ∈ ps, V4Acceptable d p) (hord : ∀ k ∈ ord, ∃ b, hexDecode k = .ok b) :
+    ∃ t, newV4 ord ps mint 0 d = .ok t := by
+  obtain ⟨m, hm⟩ := buildMap_of_acceptable d ps hps []
+  obtain ⟨gs, hgs⟩ := buildGroups_of_hex m ord hord
+  exact ⟨{ tokenProofs := gs, memo := "", mintURL := mint, unit := unitString 0 },
+    by simp [newV4, newV4With, hm, hgs]⟩
+
+/-! ### grouping by keyset id is a permutation that keeps the order inside each keyset -/
+
+theorem flatMap_filter_perm_aux (ps : List Proof) (ks : List String) (hnd : ks.Nodup) :
+    (ks.flatMap (fun k => ps.filter (fun p => p.id = k))).Perm (ps.filter (fun p => decide (p.id ∈ ks))) := by
+  induction ks with
+  | nil => simp
+  | cons k ks ih =>
+    have hk : k ∉ ks := (List.nodup_cons.1 hnd).1
+    have ih := ih (List.nodup_cons.1 hnd).2
+    simp only [List.flatMap_cons]
+    refine (List.Perm.append_left _ ih).trans ?_
+    have key := List.filter_append_perm (fun p : Proof => decide (p.id = k)) (ps.filter (fun p => decide (p.id ∈ k :: ks)))
+    rw [List.filter_filter, List.filter_filter] at key
+    have e1 : ps.filter (fun p => decide (p.id = k) && decide (p.id ∈ k :: ks)) = ps.filter (fun p => decide (p.id = k)) := by
+      apply List.filter_congr
+      intro p _
+      by_cases h : p.id = k <;> simp [h]
+    have e2 : ps.filter (fun p => (!decide (p.id = k)) && decide (p.id ∈ k :: ks)) = ps.filter (fun p => decide (p.id ∈ ks)) := by
+      apply List.filter_congr
+      intro p _
+      by_cases h : p.id = k
+      · subst h; simp [hk]
+      · simp [h]
+    rw [e1, e2] at key
+    exact key
+
+theorem flatMap_filter_perm (ps : List Proof) (ord : List String) (h : OrderOf ps ord) :
+    (ord.flatMap (fun k => ps.filter (fun p => p.id = k))).Perm ps := by
+  have := flatMap_filter_perm_aux ps ord h.1
+  have e : ps.filter (fun p => decide (p.id ∈ ord)) = ps := by
+    apply List.filter_eq_self.2
+    intro p hp
+    simpa using (h.2 p.id).2 ⟨p, hp, rfl⟩
+  rwa [e] at this
+
+theorem normV4_amount (d : Bool) (p : Proof) : (normV4 d p).amount = p.amount := rfl
+
+/-! ### lower-case hex proofs: the round trip is exact -/
+
+theorem strBytes_eq_nil (s : String) (h : strBytes s = []) : s = "" := by
+  have := asciiStr_strBytes s (by rw [h]; intro b hb; cases hb)
+  rw [h] at this
+  exact this.symm
+
+/-- `NewTokenV3`'s treatment of the DLEQ: kept iff requested. -/
+def Proof.keep (includeDLEQ : Bool) (p : Proof) : Proof := if includeDLEQ then p else p.clearDLEQ
+
+/-- Keyset id, `C` and (when the DLEQ is to be included and present) `e`, `s`, `r` are lower-case hex, and `r`
+    is not empty. -/
+def LowerHexProof (includeDLEQ : Bool) (p : Proof) : Prop :=
+  isLowerHex p.id = true ∧ isLowerHex p.c = true ∧
+  (includeDLEQ = true → ∀ d, p.dleq = some d →
+    isLowerHex d.e = true ∧ isLowerHex d.s = true ∧ isLowerHex d.r = true ∧ d.r ≠ "")
+
+theorem lowerHex_of_isLowerHex (s : String) (h : isLowerHex s = true) : lowerHex s = s := by
+  obtain ⟨b, hb, he⟩ := hex_roundtrip_of_isLowerHex s h
+  rw [← hexEncode_of_hexDecode s b hb, he]
+
+theorem LowerHexProof.acceptable {d : Bool} {p : Proof} (h : LowerHexProof d p) : V4Acceptable d p := by
+  obtain ⟨_, hc, hd⟩ := h
+  refine ⟨?_, ?_⟩
+  · obtain ⟨b, hb, _⟩ := hex_roundtrip_of_isLowerHex _ hc; exact ⟨b, hb⟩
+  · intro hd' dl hdl
+    obtain ⟨he, hs, hr, hne⟩ := hd hd' dl hdl
+    obtain ⟨be, hbe, _⟩ := hex_roundtrip_of_isLowerHex _ he
+    obtain ⟨bs, hbs, _⟩ := hex_roundtrip_of_isLowerHex _ hs
+    obtain ⟨br, hbr, _⟩ := hex_roundtrip_of_isLowerHex _ hr
+    refine ⟨⟨be, hbe⟩, ⟨bs, hbs⟩, ?_, ⟨br, hbr⟩⟩
+    cases hlen : strBytes dl.r with
+    | nil => exact absurd (strBytes_eq_nil _ hlen) hne
+    | cons _ _ => simp
+
+theorem LowerHexProof.norm {d : Bool} {p : Proof} (h : LowerHexProof d p) : normV4 d p = p.keep d := by
+  obtain ⟨hid, hc, hd⟩ := h
+  cases d with
+  | false =>
+    simp [normV4, Proof.keep, Proof.clearDLEQ, lowerHex_of_isLowerHex _ hid, lowerHex_of_isLowerHex _ hc]
+  | true =>
+    cases hdl : p.dleq with
+    | none =>
+      cases p
+      simp_all [normV4, Proof.keep, lowerHex_of_isLowerHex]
+    | some dl =>
+      obtain ⟨he, hs, hr, _⟩ := hd rfl dl hdl
+      cases p
+      cases dl
+      simp_all [normV4, Proof.keep, DLEQ.lower, lowerHex_of_isLowerHex]
+
+theorem Proof.keep_true : Proof.keep true = fun p => p := by funext p; rfl
+theorem Proof.keep_false : Proof.keep false = Proof.clearDLEQ := by funext p; rfl
+
+/-! ## the front end never panics on 6 or more bytes -/
+
+theorem front_cases (pfx : Bytes) (bad : DecErr) (s : Bytes) :
+    (s.length < 6 ∧ front pfx bad s = .panic (.sliceBounds 6 s.length)) ∨
+    (6 ≤ s.length ∧ ((∃ e, front pfx bad s = .err e) ∨ ∃ b, front pfx bad s = .ok b)) := by
+  unfold front
+  by_cases h : s.length < 6
+  · left; simp [h]
+  · right
+    refine ⟨by omega, ?_⟩
+    simp only [h, if_false]
+    split
+    · exact Or.inl ⟨_, rfl⟩
+    · split
+      · exact Or.inl ⟨_, rfl⟩
+      · exact Or.inr ⟨_, rfl⟩
+
+theorem decodeV4Bytes_cases (cod : Codec) (s : Bytes) :
+    (s.length < 6 ∧ decodeV4Bytes cod s = .panic (.sliceBounds 6 s.length)) ∨
+    (6 ≤ s.length ∧ ((∃ e, decodeV4Bytes cod s = .err e) ∨ ∃ t, decodeV4Bytes cod s = .ok t)) := by
+  unfold decodeV4Bytes frontV4
+  rcases front_cases prefixV4 .invalidTokenV4 s with ⟨h, e⟩ | ⟨h, ⟨e, he⟩ | ⟨b, hb⟩⟩
+  · left; exact ⟨h, by rw [e]⟩
+  · right; exact ⟨h, Or.inl ⟨e, by rw [he]⟩⟩
+  · right
+    refine ⟨h, ?_⟩
+    rw [hb]
+    cases hdc : cod.decCbor b with
+    | none => exact Or.inl ⟨.unmarshal, by simp only [hdc]⟩
+    | some t => exact Or.inr ⟨t, by simp only [hdc]⟩
+
+theorem decodeV3Bytes_cases (cod : Codec) (s : Bytes) :
+    (s.length < 6 ∧ decodeV3Bytes cod s = .panic (.sliceBounds 6 s.length)) ∨
+    (6 ≤ s.length ∧ ((∃ e, decodeV3Bytes cod s = .err e) ∨ ∃ t, decodeV3Bytes cod s = .ok t)) := by
+  unfold decodeV3Bytes frontV3
+  rcases front_cases prefixV3 .invalidTokenV3 s with ⟨h, e⟩ | ⟨h, ⟨e, he⟩ | ⟨b, hb⟩⟩
+  · left; exact ⟨h, by rw [e]⟩
+  · right; exact ⟨h, Or.inl ⟨e, by rw [he]⟩⟩
+  · right
+    refine ⟨h, ?_⟩
+    rw [hb]
+    cases hdc : cod.decJson b with
+    | none => exact Or.inl ⟨.unmarshal, by simp only [hdc]⟩
+    | some t => exact Or.inr ⟨t, by simp only [hdc]⟩
+
+theorem decodeTokenBytes_cases (cod : Codec) (s : Bytes) :
+    (s.length < 6 ∧ decodeTokenBytes cod s = .panic (.sliceBounds 6 s.length)) ∨
+    (6 ≤ s.length ∧ ((∃ e, decodeTokenBytes cod s = .err e) ∨ ∃ t, decodeTokenBytes cod s = .ok t)) := by
+  unfold decodeTokenBytes
+  rcases decodeV4Bytes_cases cod s with ⟨h, e⟩ | ⟨h, ⟨e, he⟩ | ⟨t, ht⟩⟩
+  · left; exact ⟨h, by rw [e]⟩
+  · right
+    refine ⟨h, ?_⟩
+    rw [he]
+    rcases decodeV3Bytes_cases cod s with ⟨h', _⟩ | ⟨_, ⟨e', he'⟩ | ⟨t, ht⟩⟩
+    · omega
+    · rw [he']; exact Or.inl ⟨_, rfl⟩
+    · rw [ht]; exact Or.inr ⟨_, rfl⟩
+  · right; exact ⟨h, Or.inr ⟨_, by rw [ht]⟩⟩
+
+/-! ## concrete instances used by the non-vacuity examples of `Props/C14.lean` -/
+
+/-- Three proofs over two keysets, interleaved; a NUT-10 secret with quotes, a witness, complete DLEQs. -/
+def psEx : List Proof :=
+  [ { amount := 1, id := "00ab", secret := "[\"P2PK\",{\"nonce\":\"🥜\\\\\"}]", c := "02ff", witness := "", 
+      dleq := some { e := "0a", s := "0b", r := "0c" } },
+    { amount := 18446744073709551615, id := "00cd", secret := "s2", c := "03", witness := "{\"signatures\":[\"ab\"]}", dleq := none },
+    { amount := 2, id := "00ab", secret := "s3", c := "02", witness := "w", dleq := some { e := "01", s := "02", r := "03" } } ]
+
+/-- A toy codec that inverts itself on exactly one V3 and one V4 token (any codec with `dec (enc t) = some t`
+    on the token at hand will do; the real libraries are exercised by the stream). -/
+def codEx (t3 : TokenV3) (t4 : TokenV4) : Codec :=
+  { encJson := fun t => if t = t3 then some [123, 125] else none
+    decJson := fun b => if b = [123, 125] then some t3 else none
+    encCbor := fun t => if t = t4 then some [160, 1, 2, 3] else none
+    decCbor := fun b => if b = [160, 1, 2, 3] then some t4 else none }
+
+theorem orderEx : OrderOf psEx ["00cd", "00ab"] := by
+  refine ⟨by decide, ?_⟩
+  intro k
+  simp only [psEx, List.mem_cons, List.not_mem_nil, or_false, exists_eq_or_imp, exists_eq_left]
+  constructor
+  · rintro (h | h) <;> simp [h]
+  · rintro (h | h | h) <;> simp [← h]
+
+theorem lowerEx : ∀ p ∈ psEx, LowerHexProof true p := by
+  intro p hp
+  simp only [psEx, List.mem_cons, List.not_mem_nil, or_false] at hp
+  rcases hp with rfl | rfl | rfl
+  · exact ⟨by decide, by decide, fun _ d h => by cases h; decide⟩
+  · exact ⟨by decide, by decide, fun _ d h => by cases h⟩
+  · exact ⟨by decide, by decide, fun _ d h => by cases h; decide⟩
+
 end Gonuts.Model.Token
